@@ -77,14 +77,22 @@ func genCond(r *Rng, alias string, groups int) string {
 	}
 }
 
-const udfPrelude = `DECLARE f FUNCTION (@x, @y) AS BEGIN IF @x IS NULL THEN RETURN @y; END IF; RETURN @x * 2 + @y; END;
+const udfPrelude = `VAR @x := 'dog'; VAR @n := 5; VAR @f := 2.5; VAR @d := DATETIME('2012-02-03 09:18:15'); VAR @u;
+DECLARE f FUNCTION (@x, @y) AS BEGIN IF @x IS NULL THEN RETURN @y; END IF; RETURN @x * 2 + @y; END;
 DECLARE usum AGGREGATE (list, @init DEFAULT 0) AS BEGIN VAR @t := @init; VAR @e; WHILE @e IN list DO IF @e IS NOT NULL THEN @t := @t + @e; END IF; END WHILE; RETURN @t; END;`
 
 func genQuery(r *Rng, m *qMeta) []string {
 	G := m.Groups
 	small := !m.Big
 	for {
-		switch r.Intn(39) {
+		switch r.Intn(43) {
+		case 39, 40:
+			// built-in functions of every family evaluated by several workers
+			return []string{fmt.Sprintf("SELECT id, %s FROM a;", exprList(r, r.Range(3, 7)))}
+		case 41:
+			return []string{fmt.Sprintf("SELECT id, %s FROM a WHERE REGEXP_MATCH(s, '^[a-d]') OR s LIKE '%%o%%' OR DATETIME_FORMAT(ADD_DAY(@d, id), '%%Y-%%m') > '2012-02' ORDER BY %s, id;", exprList(r, 2), c14Exprs[r.Intn(30)])}
+		case 42:
+			return []string{fmt.Sprintf("UPDATE a SET s = REGEXP_REPLACE(s, '[aeiou]', STRING(id %% 3)), v = IFNULL(v, 0) + LEN(s) WHERE %s;", genCond(r, "", G)), "SELECT * FROM a;"}
 		case 27:
 			return []string{"SELECT id, w FROM a JOIN b USING (id, g);", "SELECT id, g, w FROM a NATURAL JOIN b;"}
 		case 28:
